@@ -38,7 +38,7 @@ theorem src_getPrevStep_expected : src_getPrevStep = "{ if t <= startSample { re
 
 theorem src_populateByPrevious_expected : src_populateByPrevious = "{ if model.IsStaleNaN(r.prevBuf.value) { return } for t := nextStep; t <= lastStep; t += param.step { if r.prevBuf.time < t-param.lookBackDelta { break } r.fv(outRecord.Column(outOrdinal), r.prevBuf.value) if outOrdinal == 0 { outRecord.AppendTime(t + r.offset) } } }" := by rfl
 
-theorem src_rateMerge_expected : src_rateMerge = "{ return func(prevT, currT []int64, prevV, currV []float64, ts int64, pointCount int, param *ReducerParams) (float64, bool) { if pointCount <= 1 { return 0, true } firstTime, lastTime, firstValue, _, reduceResult := executor.CalcReduceResult(prevT, currT, prevV, currV, isCounter) if lastTime == firstTime || param.rangeDuration == 0 { return 0, true } rangeStart, rangeEnd := ts-param.rangeDuration, ts durationToStart := float64(firstTime-rangeStart) / 1e9 durationToEnd := float64(rangeEnd-lastTime) / 1e9 sampledInterval := float64(lastTime-firstTime) / 1e9 averageDurationBetweenSamples := sampledInterval / float64(pointCount-1) if isCounter && reduceResult > 0 && pointCount > 0 && firstValue >= 0 { durationToZero := sampledInterval * (firstValue / reduceResult) if durationToZero < durationToStart { durationToStart = durationToZero } } extrapolationThreshold := averageDurationBetweenSamples * 1.1 extrapolateToInterval := sampledInterval if durationToStart >= extrapolationThreshold { durationToStart = averageDurationBetweenSamples / 2 } extrapolateToInterval += durationToStart if durationToEnd >= extrapolationThreshold { durationToEnd = averageDurationBetweenSamples / 2 } extrapolateToInterval += durationToEnd resultValue := reduceResult * (extrapolateToInterval / sampledInterval) if isRate { resultValue = resultValue / float64(param.rangeDuration/1e9) } return resultValue, false } }" := by rfl
+theorem src_rateMerge_expected : src_rateMerge = "{ return func(prevT, currT []int64, prevV, currV []float64, ts int64, pointCount int, param *ReducerParams) (float64, bool) { if pointCount <= 1 { return 0, true } firstTime, lastTime, firstValue, _, reduceResult := executor.CalcReduceResult(prevT, currT, prevV, currV, isCounter) if lastTime == firstTime || param.rangeDuration == 0 { return 0, true } rangeStart, rangeEnd := ts-param.rangeDuration, ts durationToStart := float64(firstTime-rangeStart) / 1e9 durationToEnd := float64(rangeEnd-lastTime) / 1e9 sampledInterval := float64(lastTime-firstTime) / 1e9 averageDurationBetweenSamples := sampledInterval / float64(pointCount-1) if isCounter && reduceResult > 0 && pointCount > 0 && firstValue >= 0 { durationToZero := sampledInterval * (firstValue / reduceResult) if durationToZero < durationToStart { durationToStart = durationToZero } } extrapolationThreshold := averageDurationBetweenSamples * 1.1 extrapolateToInterval := sampledInterval if durationToStart >= extrapolationThreshold { durationToStart = averageDurationBetweenSamples / 2 } extrapolateToInterval += durationToStart if durationToEnd >= extrapolationThreshold { durationToEnd = averageDurationBetweenSamples / 2 } extrapolateToInterval += durationToEnd factor := extrapolateToInterval / sampledInterval if isRate { factor /= time.Duration(param.rangeDuration).Seconds() } return reduceResult * factor, false } }" := by rfl
 
 theorem src_irateMerge_expected : src_irateMerge = "{ return func(prevTime int64, lastTime int64, prevValue float64, lastValue float64, ts int64, pointCount int, param *ReducerParams) (float64, bool) { if lastTime == prevTime || param.rangeDuration == 0 || pointCount < 2 { return 0, true } var resultValue float64 if isRate && lastValue < prevValue { resultValue = lastValue } else { resultValue = lastValue - prevValue } sampledInterval := lastTime - prevTime if sampledInterval == 0 { return 0, true } if isRate { resultValue /= float64(sampledInterval) / 1e9 } return resultValue, false } }" := by rfl
 
